@@ -141,6 +141,8 @@ func frameAspectHandler(code []byte, pointcut string, gas int64, req []byte) (in
 
 // ---------------------------------------------------------------- transfers
 
+const transferEffectBase = uint64(1) << 40
+
 type transferRec struct {
 	from, to         common.Address
 	amount           *big.Int
@@ -174,6 +176,18 @@ type frec struct {
 	jpMark      int
 	effects     []uint64 // program effects performed by this frame itself
 	failedErr   error
+	// specification material (C05 C06 C08)
+	nodeIdx     int   // call-tree index of the node this frame pushed (-1: none)
+	parentNode  int   // index of the nearest enclosing frame that pushed a node (-1: none)
+	jpFirst     int   // len(frameJPLog) at the first step (-1: no step)
+	jpLast      int   // … at the last step
+	jpExit      int   // … at the exit callback
+	firstGas    uint64
+	accepted    bool
+	exitOut     []byte
+	exitUsed    uint64
+	exitErr     error
+	suppliedGas uint64
 }
 
 type frameLogger struct {
@@ -193,8 +207,9 @@ type frameLogger struct {
 	desync     string
 	journaled  map[string]bool
 	accounts   map[common.Address]bool
-	jpFrames   []string // C05/C06 spec material: per contract-call frame "to|preIdx|firstStepGas|postIdx"
 	treeCount  int
+	done       []*frec // every attempt, accepted or refused, in the order the frame functions were invoked
+	jpOn       bool
 }
 
 func (l *frameLogger) f(op string) { l.lines = append(l.lines, [2]string{"-", "F " + op}) }
@@ -256,6 +271,9 @@ func (l *frameLogger) emitEnter(a *attempt, gas uint64, accepted bool, fr *frec,
 				val = new(big.Int)
 			}
 			if t.from == a.caller && t.to == a.to && t.amount.Cmp(val) == 0 {
+				if fr != nil {
+					fr.effects = append(fr.effects, transferEffectBase+uint64(l.tIdx)) // the entry transfer shares the frame's fate
+				}
 				l.tIdx++
 				m["bf"], m["bt"], m["bfa"], m["bta"] = t.bf.Text(16), t.bt.Text(16), t.bfa.Text(16), t.bta.Text(16)
 			}
@@ -286,9 +304,22 @@ func (l *frameLogger) emitEnter(a *attempt, gas uint64, accepted bool, fr *frec,
 		v = a.value.Text(16)
 	}
 	l.f(fmt.Sprintf("enter %s %s %s %s %s %s %s", a.kind, hexAddr(a.caller), hexAddr(a.to), v, hexBytes(a.input), hexU64(gas), factsStr(m)))
+	rec := fr
+	if rec == nil {
+		rec = &frec{att: a, jpFirst: -1}
+	}
+	rec.accepted, rec.suppliedGas, rec.nodeIdx, rec.parentNode = accepted, gas, -1, -1
+	for i := len(l.stack) - 1; i >= 0; i-- {
+		if l.stack[i] != rec && l.stack[i].nodeIdx >= 0 {
+			rec.parentNode = l.stack[i].nodeIdx
+			break
+		}
+	}
 	if a.kind == "call" || a.kind == "create" || a.kind == "create2" {
+		rec.nodeIdx = l.treeCount
 		l.treeCount++
 	}
+	l.done = append(l.done, rec)
 }
 
 func isActivePrecompile(evm *vm.EVM, a common.Address) bool {
@@ -391,7 +422,7 @@ func (l *frameLogger) enterFrame(kind string, from, to common.Address, input []b
 		a.value = value
 	}
 	l.accounts[to] = true
-	l.stack = append(l.stack, &frec{att: a, jpMark: len(frameJPLog)})
+	l.stack = append(l.stack, &frec{att: a, jpMark: len(frameJPLog), jpFirst: -1, nodeIdx: -1, parentNode: -1})
 }
 
 func kindOfOp(op vm.OpCode) string {
@@ -445,11 +476,12 @@ func (l *frameLogger) exitFrame(output []byte, gasUsed uint64, err error) {
 		l.desync = "exit without open frame"
 		return
 	}
-	l.stack = l.stack[:len(l.stack)-1]
+	fr.jpExit, fr.exitOut, fr.exitUsed, fr.exitErr = len(frameJPLog), append([]byte{}, output...), gasUsed, err
 	if !fr.entered {
 		l.emitEnter(fr.att, fr.att.gas, true, fr, output, gasUsed, err)
 		fr.entered = true
 	}
+	l.stack = l.stack[:len(l.stack)-1]
 	if fr.pendCall != nil {
 		l.emitEnter(fr.pendCall, l.refusedGas(fr.pendCall), false, nil, nil, 0, nil)
 		fr.pendCall = nil
@@ -514,6 +546,7 @@ func (l *frameLogger) CaptureFault(pc uint64, op vm.OpCode, gas, cost uint64, sc
 		fr.entered = true
 	}
 	fr.steps++
+	fr.jpLast = len(frameJPLog)
 	fr.fault, fr.faultGas = err, scope.Contract.Gas
 	if err != vm.ErrExecutionReverted {
 		// the faulting instruction had no effect
@@ -529,7 +562,9 @@ func (l *frameLogger) CaptureState(pc uint64, op vm.OpCode, gas, cost uint64, sc
 	l.flushPending(fr, false)
 	if fr.steps == 0 {
 		l.started = append(l.started, fmt.Sprintf("%s:%s", hexAddr(fr.att.to), hexU64(gas)))
+		fr.jpFirst, fr.firstGas = len(frameJPLog), gas
 	}
+	fr.jpLast = len(frameJPLog)
 	fr.steps++
 	if err != nil {
 		// logged from the error path without a preceding CaptureState: the instruction faulted before executing
@@ -842,10 +877,15 @@ func runFrameCase(r *Rng, em *Emitter, label string, tags string) {
 	lg.evm = env.evm
 	fi := forkIndex(fork)
 	lg.rules = map[string]string{"e158": b01(fi >= 3), "hs": b01(fi >= 1), "ber": b01(fi >= 8), "lon": b01(fi >= 9)}
+	initialBal := map[common.Address]*big.Int{callerAddr: big.NewInt(1_000_000)}
 	for a, c := range g.codes {
 		sdb.CreateAccount(a)
 		sdb.SetCode(a, c)
 		sdb.AddBalance(a, big.NewInt(1000))
+		initialBal[a] = big.NewInt(1000)
+	}
+	for _, a := range g.eoas {
+		initialBal[a] = big.NewInt(5)
 	}
 	for a, c := range g.blobs {
 		sdb.CreateAccount(a)
@@ -868,6 +908,7 @@ func runFrameCase(r *Rng, em *Emitter, label string, tags string) {
 		return nil, nil
 	}
 	jpOn := r.Chance(85)
+	lg.jpOn = jpOn
 	if jpOn {
 		env.evm.AspectCall()
 	} else {
@@ -976,13 +1017,35 @@ func runFrameCase(r *Rng, em *Emitter, label string, tags string) {
 	// C04: nothing a failed frame (or anything below it) did survives; what succeeded all the way up does
 	leaked, lost := []string{}, []string{}
 	for id := range lg.failedEffs {
-		if isAlive(id) && !lg.keptEffs[id] {
+		if id < transferEffectBase && isAlive(id) && !lg.keptEffs[id] {
 			leaked = append(leaked, hexU64(id))
 		}
 	}
+	expBal := map[common.Address]*big.Int{}
+	for a, b0 := range initialBal {
+		expBal[a] = new(big.Int).Set(b0)
+	}
 	for id := range lg.keptEffs {
-		if !isAlive(id) {
+		if id >= transferEffectBase {
+			t := lg.transfers[id-transferEffectBase]
+			for _, a := range []common.Address{t.from, t.to} {
+				if expBal[a] == nil {
+					expBal[a] = new(big.Int)
+				}
+			}
+			expBal[t.from].Sub(expBal[t.from], t.amount)
+			expBal[t.to].Add(expBal[t.to], t.amount)
+		} else if !isAlive(id) {
 			lost = append(lost, hexU64(id))
+		}
+	}
+	for _, a := range accts {
+		want := expBal[a]
+		if want == nil {
+			want = new(big.Int)
+		}
+		if sdb.GetBalance(a).Cmp(want) != 0 {
+			leaked = append(leaked, fmt.Sprintf("balance_of_%s_is_%s_expected_%s", hexAddr(a), sdb.GetBalance(a).Text(16), want.Text(16)))
 		}
 	}
 	sort.Strings(leaked)
@@ -993,6 +1056,10 @@ func runFrameCase(r *Rng, em *Emitter, label string, tags string) {
 	}
 	em.Op("C04", "S atomic", v)
 	em.Op("C07,C03", "S wf", checkTreeWF(env.evm.Tracer()))
+	em.Op("C05", "S jp", lg.specJoinPoints())
+	em.Op("C06", "S gas", lg.specGas())
+	em.Op("C08", "S node", lg.specNodes())
+	em.Op("C18", "S balanced", specBalancedEvents(lg.events))
 	em.Count(fmt.Sprintf("frame:frames=%d", min(len(lg.started), 12)))
 	em.Count(fmt.Sprintf("frame:jps=%d", min(len(frameJPLog), 8)))
 	em.Count("frame:fork=" + fork)
@@ -1047,4 +1114,262 @@ func driveFrame(seed uint64, n int, size int, em *Emitter) {
 	for i := 0; i < n; i++ {
 		runFrameCase(r.Fork(), em, fmt.Sprintf("frame-%d-%d", seed, i), "*")
 	}
+}
+
+// ---------------------------------------------------------------- specification checkers (independent of the Lean model)
+
+// interpResult: what interpreter.Run handed back for a frame that executed steps
+func (fr *frec) interpResult() (ret []byte, err error, gasLeft uint64) {
+	switch {
+	case fr.fault == vm.ErrExecutionReverted:
+		return fr.lastRet, fr.fault, fr.faultGas
+	case fr.fault != nil:
+		return nil, fr.fault, fr.faultGas
+	case fr.lastOp == byte(vm.RETURN):
+		return fr.lastRet, nil, fr.lastGas
+	}
+	return nil, nil, fr.lastGas
+}
+
+func (l *frameLogger) preOf(fr *frec) *jpRec {
+	if fr.jpMark < len(frameJPLog) && fr.jpMark < fr.jpExit {
+		if r := &frameJPLog[fr.jpMark]; r.point == string(atypes.PRE_CONTRACT_CALL_METHOD) && r.to == fr.att.to {
+			return r
+		}
+	}
+	return nil
+}
+
+func (l *frameLogger) eligible(fr *frec) bool {
+	if !l.jpOn || !fr.accepted || fr.att.kind != "call" {
+		return false
+	}
+	_, bound := frameAspects[fr.att.to]
+	return bound && fr.att.facts["ce"] == "0" && !isActivePrecompile(l.evm, fr.att.to)
+}
+
+// C05: exactly one pre join point before the first instruction and one post join point after the last, with this
+// call's data; none if the pre join point fails; none at all for frames that are not contract calls with a bound Aspect
+func (l *frameLogger) specJoinPoints() string {
+	for _, fr := range l.done {
+		if !fr.accepted {
+			continue
+		}
+		val := fr.att.value
+		if val == nil {
+			val = new(big.Int)
+		}
+		before := frameJPLog[fr.jpMark:fr.jpExit]
+		if fr.jpFirst >= 0 {
+			before = frameJPLog[fr.jpMark:fr.jpFirst]
+		}
+		var after []jpRec
+		if fr.jpFirst >= 0 {
+			after = frameJPLog[fr.jpLast:fr.jpExit]
+		}
+		if !l.eligible(fr) {
+			for _, r := range append(append([]jpRec{}, before...), after...) {
+				if r.to == fr.att.to {
+					return fmt.Sprintf("join_point_fired_for_ineligible_%s_frame_to_%s", fr.att.kind, hexAddr(fr.att.to))
+				}
+			}
+			continue
+		}
+		wantPre := fmt.Sprintf("pre(%s,%s,%s,%s,%s,%s)", hexAddr(fr.att.caller), hexAddr(fr.att.to), xbytes(fr.att.input), val.Text(16), hexU64(fr.suppliedGas), hexU64(uint64(fr.nodeIdx)))
+		if len(before) != 1 || before[0].line != wantPre {
+			got := []string{}
+			for _, r := range before {
+				got = append(got, r.line)
+			}
+			return fmt.Sprintf("pre_of_node_%d:want_%s_got_%s", fr.nodeIdx, wantPre, listStr(got))
+		}
+		if before[0].err != nil {
+			if fr.steps != 0 || len(after) != 0 {
+				return fmt.Sprintf("node_%d:code_or_post_ran_after_failed_pre", fr.nodeIdx)
+			}
+			continue
+		}
+		if fr.steps == 0 {
+			return fmt.Sprintf("node_%d:code_did_not_run_after_successful_pre", fr.nodeIdx)
+		}
+		ret, ierr, gasLeft := fr.interpResult()
+		em := "-"
+		if ierr != nil {
+			em = strings.ReplaceAll(ierr.Error(), " ", "_")
+		}
+		wantPost := fmt.Sprintf("post(%s,%s,%s,%s,%s,%s,%s,%s)", hexAddr(fr.att.caller), hexAddr(fr.att.to), xbytes(fr.att.input), val.Text(16), hexU64(gasLeft), hexU64(uint64(fr.nodeIdx)), xbytes(ret), em)
+		if len(after) != 1 || after[0].line != wantPost {
+			got := []string{}
+			for _, r := range after {
+				got = append(got, r.line)
+			}
+			return fmt.Sprintf("post_of_node_%d:want_%s_got_%s", fr.nodeIdx, wantPost, listStr(got))
+		}
+	}
+	return "ok"
+}
+
+// expectedReturn: what the frame must hand back to its caller by C06's rules, from the join-point outcomes and the
+// interpreter's own result
+func (l *frameLogger) expectedReturn(fr *frec) (left uint64, err error, known bool) {
+	if fr.steps == 0 && !l.eligible(fr) {
+		return 0, nil, false // refused / precompile / no code: not a join-point matter
+	}
+	var final error
+	gas := fr.suppliedGas
+	if l.eligible(fr) {
+		pre := l.preOf(fr)
+		if pre == nil {
+			return 0, nil, false
+		}
+		gas = pre.left
+		if pre.err != nil {
+			final = pre.err
+			if final.Error() == vm.ErrOutOfGas.Error() {
+				final = vm.ErrOutOfGas
+			}
+			if final == vm.ErrExecutionReverted {
+				return gas, final, true
+			}
+			return 0, final, true
+		}
+	}
+	if fr.steps == 0 {
+		return 0, nil, false
+	}
+	_, ierr, gasLeft := fr.interpResult()
+	final, gas = ierr, gasLeft
+	if l.eligible(fr) && fr.jpExit > fr.jpLast {
+		post := frameJPLog[fr.jpExit-1]
+		gas = post.left
+		if post.err != nil {
+			final = post.err
+			if final.Error() == vm.ErrOutOfGas.Error() {
+				final = vm.ErrOutOfGas
+			}
+		}
+	}
+	if fr.att.kind == "create" || fr.att.kind == "create2" {
+		return 0, nil, false // code-deposit rules are not C06's
+	}
+	if final != nil && final != vm.ErrExecutionReverted {
+		gas = 0
+	}
+	return gas, final, true
+}
+
+// C06: the callee starts with what the pre join point left, the caller gets back what the post join point left,
+// out-of-gas is normalised, other non-revert failures forfeit the gas, and no frame returns more than it was given
+func (l *frameLogger) specGas() string {
+	for _, fr := range l.done {
+		if !fr.accepted {
+			continue
+		}
+		if l.eligible(fr) && l.preOf(fr) == nil {
+			return fmt.Sprintf("node_%d:pre_join_point_did_not_reach_the_bound_Aspect_(frame_error_%s)", fr.nodeIdx, ferr(fr.exitErr))
+		}
+		if l.eligible(fr) && fr.steps > 0 && fr.firstGas != l.preOf(fr).left {
+			return fmt.Sprintf("node_%d:callee_started_with_%x_but_pre_join_point_left_%x", fr.nodeIdx, fr.firstGas, l.preOf(fr).left)
+		}
+		if !l.eligible(fr) && fr.steps > 0 && fr.firstGas != fr.suppliedGas {
+			return fmt.Sprintf("%s_frame_to_%s_started_with_%x_of_%x", fr.att.kind, hexAddr(fr.att.to), fr.firstGas, fr.suppliedGas)
+		}
+		if fr.exitUsed > fr.suppliedGas {
+			return fmt.Sprintf("frame_to_%s_returned_more_gas_than_supplied", hexAddr(fr.att.to))
+		}
+		if left, err, ok := l.expectedReturn(fr); ok {
+			if fr.suppliedGas-fr.exitUsed != left {
+				return fmt.Sprintf("frame_to_%s:returned_%x_expected_%x_(err_%s)", hexAddr(fr.att.to), fr.suppliedGas-fr.exitUsed, left, ferr(err))
+			}
+			if ferr(err) != ferr(fr.exitErr) {
+				return fmt.Sprintf("frame_to_%s:error_%s_expected_%s", hexAddr(fr.att.to), ferr(fr.exitErr), ferr(err))
+			}
+		}
+	}
+	return "ok"
+}
+
+// C08: every CALL / CREATE attempt appears once, in program order under the frame that issued it, with the inputs as
+// made (bytes captured at the moment of the call) and the outcome as handed back
+func (l *frameLogger) specNodes() string {
+	ct := l.evm.Tracer().CallTree()
+	n := 0
+	for _, fr := range l.done {
+		if fr.nodeIdx < 0 {
+			continue
+		}
+		if fr.nodeIdx != n {
+			return fmt.Sprintf("attempt_%d_recorded_as_node_%d", n, fr.nodeIdx)
+		}
+		n++
+		c := ct.FindCall(uint64(fr.nodeIdx))
+		if c == nil {
+			return fmt.Sprintf("attempt_%d_(%s_to_%s)_has_no_node", fr.nodeIdx, fr.att.kind, hexAddr(fr.att.to))
+		}
+		val := fr.att.value
+		if val == nil {
+			val = new(big.Int)
+		}
+		isCreate := fr.att.kind != "call"
+		switch {
+		case c.From != fr.att.caller:
+			return fmt.Sprintf("node_%d:from", fr.nodeIdx)
+		case isCreate != (c.To == nil) || (!isCreate && *c.To != fr.att.to):
+			return fmt.Sprintf("node_%d:to", fr.nodeIdx)
+		case c.Value.ToBig().Cmp(val) != 0:
+			return fmt.Sprintf("node_%d:value", fr.nodeIdx)
+		case hexBytes(c.Data) != hexBytes(fr.att.input):
+			return fmt.Sprintf("node_%d:data_recorded_%s_but_call_was_made_with_%s", fr.nodeIdx, hexBytes(c.Data), hexBytes(fr.att.input))
+		case int(c.ParentIndex()) != fr.parentNode:
+			return fmt.Sprintf("node_%d:parent_%d_expected_%d", fr.nodeIdx, c.ParentIndex(), fr.parentNode)
+		}
+		if fr.accepted {
+			switch {
+			case c.Gas.Uint64() != fr.suppliedGas:
+				return fmt.Sprintf("node_%d:gas", fr.nodeIdx)
+			case hexBytes(c.Ret) != hexBytes(fr.exitOut) || ferr(c.Err) != ferr(fr.exitErr) || c.RemainingGas != fr.suppliedGas-fr.exitUsed:
+				return fmt.Sprintf("node_%d:outcome_recorded_(%s,%x,%s)_handed_back_(%s,%x,%s)", fr.nodeIdx, hexBytes(c.Ret), c.RemainingGas, ferr(c.Err),
+					hexBytes(fr.exitOut), fr.suppliedGas-fr.exitUsed, ferr(fr.exitErr))
+			}
+		} else if c.Err == nil {
+			return fmt.Sprintf("node_%d:refused_attempt_recorded_without_error", fr.nodeIdx)
+		}
+	}
+	if ct.FindCall(uint64(n)) != nil {
+		return fmt.Sprintf("node_%d_corresponds_to_no_attempt", n)
+	}
+	return "ok"
+}
+
+// C18: start/end and enter/exit stay balanced and properly nested
+func specBalancedEvents(ev []string) string {
+	var st []byte
+	for _, e := range ev {
+		switch {
+		case strings.HasPrefix(e, "start("):
+			if len(st) != 0 {
+				return "start_inside_an_open_frame"
+			}
+			st = append(st, 's')
+		case strings.HasPrefix(e, "enter("):
+			if len(st) == 0 {
+				return "enter_outside_a_transaction_frame"
+			}
+			st = append(st, 'e')
+		case strings.HasPrefix(e, "end("):
+			if len(st) != 1 || st[0] != 's' {
+				return "end_does_not_close_the_outermost_frame"
+			}
+			st = st[:0]
+		case strings.HasPrefix(e, "exit("):
+			if len(st) < 2 || st[len(st)-1] != 'e' {
+				return "exit_without_matching_enter"
+			}
+			st = st[:len(st)-1]
+		}
+	}
+	if len(st) != 0 {
+		return fmt.Sprintf("%d_frames_left_open", len(st))
+	}
+	return "ok"
 }
